@@ -991,7 +991,7 @@ func (f *cbFill) records() Records {
 
 // copies the encoder-only parameter CompressionLevel (not on the wire) from the original onto the decoded value
 func cbCarryLevels(dec, orig reflect.Value, depth int) {
-	if depth > 12 || !dec.IsValid() || !orig.IsValid() || dec.Type() != orig.Type() {
+	if depth > 40 || !dec.IsValid() || !orig.IsValid() || dec.Type() != orig.Type() {
 		return
 	}
 	switch dec.Kind() {
